@@ -11,8 +11,10 @@ Contract, for each channel ch in {serde, json, pickle, copy} and r = ch(t):
         snapshot: per node (class, args without None / [] values, exact scalar values, public .type structure,
         comments ([] ~ None), meta ({} ~ None)); None-valued and empty-list args are "absent" (dump drops them)
     r.sql(d) == t.sql(d) for d in DIALECTS8 (all dialects in thorough); generation errors must be the same error
-        -- evaluated whenever the *strict* snapshots differ and on a fixed subset otherwise (the generator is a
-        deterministic function of the snapshot)
+        -- evaluated whenever the *strict* snapshots differ (None / [] args present vs absent, comments [] vs None,
+        meta {} vs None; attached type trees compared laxly) and on a fixed subset unconditionally (every corpus
+        statement read in the base dialect, all five variants); the generator is a deterministic function of the
+        strict snapshot
     wf(r) == []                                              else  malformed
     json.dumps(dump(t)) succeeds                             else  not-json
     every payload entry's parent index "i" points to an earlier entry that is a node    else  bad-parent-index
@@ -92,6 +94,12 @@ def lax(recs):
             ty = ("T", lax(ty[1]))
         out.append((cls, args, ty, comments or None, None if meta in (None, "{}") else meta, where))
     return tuple(out)
+
+
+def semi(recs):
+    """strict records, except that the attached *type* trees are compared laxly (None-valued args inside a
+    DataType are dropped by dump; generators consult types only through the DataType API)."""
+    return tuple((c, a, ("T", lax(ty[1])) if isinstance(ty, tuple) and ty and ty[0] == "T" else ty, co, m, w) for c, a, ty, co, m, w in recs)
 
 
 def snap_diff(a, b):
@@ -196,6 +204,7 @@ def evaluate(t, site_of, dialects, always_sql, inp, st, informational=False, inf
             add("serde", "bad-parent-index", site_of(None), b)
     strict_t = snapshot(t)
     lax_t = lax(strict_t)
+    semi_t = semi(strict_t)
     sql_t = None
     for ch in CHANNELS:
         if ch not in rts:
@@ -224,7 +233,7 @@ def evaluate(t, site_of, dialects, always_sql, inp, st, informational=False, inf
         problems = wf(r, root_detached=True)
         if problems:
             add(ch, f"malformed-{problems[0][0]}", site_of(problems[0][2]), problems[0][1])
-        if always_sql or strict_r != strict_t:
+        if always_sql or semi(strict_r) != semi_t:
             if sql_t is None:
                 sql_t = sql_all(t, dialects)
             sql_r = sql_all(r, dialects)
@@ -270,7 +279,8 @@ def expr_classes():
     out = []
     for name in sorted(dir(exp)):
         c = getattr(exp, name)
-        if isinstance(c, type) and issubclass(c, Expr) and isinstance(getattr(c, "arg_types", None), dict):
+        # concrete node classes only: the Expr traits (Func, Condition, Query, ...) raise NotImplementedError
+        if isinstance(c, type) and issubclass(c, Expression) and isinstance(getattr(c, "arg_types", None), dict):
             out.append(name)
     return out
 
@@ -279,7 +289,7 @@ def _decorate_instance(t):
     t.comments = ["cm"]
     t.meta["mk"] = {"a": [1, "x"], "b": True}
     if not getattr(t, "is_data_type", False):
-        t.type = exp.DataType.build("ARRAY<INT>")
+        t.type = exp.DataType(this=exp.DataType.Type.ARRAY, expressions=[exp.DataType(this=exp.DataType.Type.INT)], nested=True)
     for n, holder, *_r in nodes(t):
         if holder is not None:
             n.comments = ["child"]
@@ -430,7 +440,7 @@ def _plan(tier):
     if tier == "quick":
         for sql in corpus.STATEMENTS:
             items.append(("corpus", sql, "", DIALECTS8, True))
-        for d in ds[1:]:
+        for d in DIALECTS8[1:]:
             for sql in corpus.STATEMENTS:
                 items.append(("corpus", sql, d, DIALECTS8, False))
     else:
@@ -443,6 +453,10 @@ def _plan(tier):
 
 
 def run(tier, seed):
+    from sqlglot.dialects.dialect import Dialect
+
+    for _d in corpus.dialects():  # import every dialect module once, before the pool forks
+        Dialect.get_or_raise(_d or None)
     plan = _plan(tier)
     order = list(range(len(plan)))
     if seed:
@@ -467,6 +481,8 @@ def run(tier, seed):
         x["count"] = counts[k]
         violations.append(x)
     ncls = sum(1 for it in plan if it[0] == "class")
+    traits = sorted(n for n in dir(exp) if isinstance(getattr(exp, n), type) and issubclass(getattr(exp, n), Expr) and not issubclass(getattr(exp, n), Expression))
+    skips["abstract-trait-classes"] = len(traits)
     return {
         "evaluations": evals,
         "distinct_nontrivial": nontrivial,
